@@ -21,13 +21,16 @@ def wf (c : Case) : Bool :=
   (c.op == .evolve || c.cur.all (·.2.isSome))
 
 def known (c : Case) : List String :=
-  C01.known c.base ++ (if cacheMisplaced c.base.run then ["K2"] else [])
+  C01.known c.base ++ (if cacheMisplaced c.base.run && c.op == .evolve then ["K2"] else [])
 
 /-- the value evolve passes for an init field: the change, else the current value -/
 def passedFor (c : Case) (a : Attr) : Option Val :=
   match lookup a.alias c.changes with
   | some v => some v
   | none => curOf c.cur a.name
+
+/-- the object a judged field must hold: the one given as the change, else the original's -/
+def identDemand (changed : Bool) : Ident := if changed then .passed else .orig
 
 def spec (c : Case) (o : Obs) : Bool :=
   let attrs := c.base.run.attrs
@@ -42,12 +45,17 @@ def spec (c : Case) (o : Obs) : Bool :=
          else match a.dflt with
            | .none => none
            | .value => some (convApply a (dfltVal a))
-           | .factory ts => some (convApply a (factoryVal a ts))))
+           | .factory ts => some (convApply a (factoryVal a ts)))) &&
+       -- an init field without converter holds the very object given for it (the change, else the original's)
+       (attrs.filter (·.init)).all (fun a => a.conv.isSome ||
+         o.ident.contains (a.name, identDemand (c.changes.any (·.1 == a.alias))))
      else o.exc == some .typeError
    | .assoc =>
      if c.changes.all (fun kv => attrs.any (·.name == kv.1)) then
        o.exc == none && o.fresh && o.invariants &&
-       o.values == c.cur.map (fun kv => (kv.1, match lookup kv.1 c.changes with | some w => some w | none => kv.2))
+       o.values == c.cur.map (fun kv => (kv.1, match lookup kv.1 c.changes with | some w => some w | none => kv.2)) &&
+       -- replaced means replaced by the object given (also when it equals the old one); the rest is shared
+       c.cur.all (fun kv => o.ident.contains (kv.1, identDemand (c.changes.any (·.1 == kv.1))))
      else o.exc == some .notFound)
 
 def check : Check Case Obs := { model := model, spec := spec, wf := wf, known := known }
